@@ -449,6 +449,25 @@ def native_witness(kinds_dims, n_ids, seed):
         fd = (ref(xp) - ref(xm)) / (2 * h)
         if not np.isclose(g1[k], fd, rtol=2e-4, atol=2e-5):
             return dict(case, what='sensitivity %d (%s) is %r, central difference of the specification %r' % (k, lay.vector[k], float(g1[k]), float(fd)), expected=float(fd), observed=float(g1[k]))
+    # posterior: prior on the population block
+    try:
+        import pints
+        prior = pints.ComposedLogPrior(*[pints.GaussianLogPrior(0.5 + 0.1 * k, 2.0 + 0.3 * k) for k in range(lay.n_top)])
+        post = real.HierarchicalLogPosterior(hll, prior)
+        top = xvec[lay.n_bottom:]
+        pv, pg = prior.evaluateS1(top)
+        got_p = post(xvec)
+        sp_, gp_ = post.evaluateS1(xvec)
+        if not (np.isclose(got_p, want + pv, rtol=1e-9) and np.isclose(sp_, want + pv, rtol=1e-9)):
+            return dict(case, what='posterior %r / evaluateS1 score %r, prior + likelihood specification %r' % (got_p, sp_, want + pv), expected=float(want + pv), observed=float(got_p))
+        wantg = np.array(g1, dtype=float).copy()
+        wantg[lay.n_bottom:] += pg
+        if len(gp_) != len(wantg) or not np.allclose(gp_, wantg, rtol=1e-7, atol=1e-9):
+            k = int(np.argmax(~np.isclose(gp_, wantg, rtol=1e-7, atol=1e-9))) if len(gp_) == len(wantg) else -1
+            return dict(case, what='posterior sensitivity %d is %r, likelihood gradient + prior gradient on the population block gives %r' % (
+                k, float(gp_[k]), float(wantg[k])), expected=wantg.tolist(), observed=np.asarray(gp_, dtype=float).tolist())
+    except Exception as ex:
+        return dict(case, what='posterior raises %r' % (ex,), expected='values', observed=repr(ex))
     names = hll.get_parameter_names()
     ids = hll.get_id()
     wn, wi = lay.names_ids(lls[0].get_parameter_names(), [l.get_id() for l in lls], pop.get_parameter_names())
